@@ -40,6 +40,10 @@ def load_corpus():
             if os.path.exists(meta) and os.path.exists(patch):
                 with open(meta) as fh:
                     mj = json.load(fh)
+                if mj.get('retired'):
+                    # a change that stopped being a violation when /repo was repaired: kept as a benign twin
+                    entries.append({'id': 'seeded/' + d, 'prop': mj['property'], 'kind': 'benign', 'patch': patch})
+                    continue
                 entries.append({'id': 'seeded/' + d, 'prop': mj['property'], 'kind': 'break', 'patch': patch,
                                 'expect': mj.get('expect_rule'), 'optional': mj.get('detected') is False})
     return entries
